@@ -549,6 +549,14 @@ class Runner:
     ndof = np.asarray(tm.body_dofnum).astype(int).copy()
     for b in range(1, tm.nbody):
       ndof[b] += ndof[par[b]]
+    if rk4 and skip_step is None and c.dx0._impl.ncon:
+      # RK4 evaluates forward() at three intermediate states: the next state is comparable only if no contact slot belongs
+      # to a pair class whose narrow phase differs from the C engine (box/ellipsoid/cylinder, capsule-capsule, sphere-capsule)
+      gt = np.asarray(tm.geom_type)
+      for g1, g2 in np.asarray(outf._impl.contact.geom)[0]:
+        kinds = {GEOM_NAMES[int(gt[g1])], GEOM_NAMES[int(gt[g2])]}
+        if not kinds <= ANALYTIC or kinds == {'capsule'} or kinds == {'capsule', 'sphere'}:
+          skip_step = 'rk4-nonanalytic-contact-slots'
     info = dict(body_dofless=(ndof == 0), skip_step=skip_step, implicitfast=implicitfast, nefc_slots=int(c.dx0._impl.nefc), dsbl_actuation=dsbl_act,
                 sens_mask=sens_mask,
                 full_m=lambda dxi: full_m_mjx(mjx, c.mx, dxi),
